@@ -29,6 +29,26 @@ func init() {
 			fill16 = append(fill16, fmt.Sprintf("ins %d", k))
 		}
 		add(c15Params{Hashes: wide, Procs: 3, Setup: fill16, Threads: [][]string{{"ins 16", "get 13"}, {"get 15", "get 14"}}}, "small", 2, 8, 60, "grew")
+		// a degenerate chain: 26 keys collide in one root bucket (five chained buckets) while the table grows around them;
+		// holes are punched at every depth and refilled; every step is compared with a map natively, then two threads
+		// insert into / read from the deep chain
+		{
+			deep := make([]uint64, 30)
+			for i := range deep {
+				deep[i] = hsh(0, 5)
+			}
+			var setup []string
+			for k := 0; k < 25; k++ {
+				setup = append(setup, fmt.Sprintf("ins %d", k))
+			}
+			for _, hole := range []int{2, 7, 12, 17, 22} {
+				setup = append(setup, fmt.Sprintf("del %d", hole), "ins 25", "get 25", fmt.Sprintf("get %d", hole), "size", "del 25", fmt.Sprintf("ins %d", hole), fmt.Sprintf("get %d", hole))
+			}
+			setup = append(setup, "del 3", "del 13", "del 23", "range")
+			for _, variant := range []string{"small", "native"} {
+				add(c15Params{Hashes: deep, Setup: setup, Threads: [][]string{{"ins 26", "get 27"}, {"ins 27", "get 26", "ins 28"}}}, variant, 2, 8, 60)
+			}
+		}
 		if !thorough {
 			// H1: get / insert / delete / update in one chain incl. overflow bucket (6 colliding keys)
 			add(c15Params{Hashes: same, Setup: []string{"ins 0", "ins 1", "ins 2", "ins 3", "ins 4"}, Threads: [][]string{{"ins 5", "get 0"}, {"del 0", "get 5"}, {"get 5", "get 0"}}}, "small", 2, 8, 60)
